@@ -302,12 +302,18 @@ def c02_aero_struct(rng, tier):
 def c12_fixed_point(rng, tier):
     from openaerostruct.transfer.load_transfer import LoadTransfer
     s = _as_surface(rng, tier, struct_weight_relief=bool(rng.integers(2)))
-    s2 = None
-    flow = _as_flow(rng, beta=float(rng.choice([0.0, 0.0, 4.0])) if not s["symmetry"] else 0.0)
+    surfs = [s]
+    if rng.uniform() < 0.5:
+        # a second surface (tail) with its own spar location; same mesh shape as the wing half of the time
+        t = _as_surface(rng, tier, sym=s["symmetry"], ny=s["mesh"].shape[1] if rng.uniform() < 0.5 and s["symmetry"] else None)
+        t["name"] = "tail"; t["mesh"] = t["mesh"] * 0.5 + np.array([6.0, 0.0, 0.8])
+        t["fem_origin"] = float(np.clip(s["fem_origin"] + rng.choice([-0.2, 0.25]), 0.05, 0.9))
+        surfs.append(t)
+    flow = _as_flow(rng, beta=float(rng.choice([0.0, 0.0, 4.0])) if not any(x["symmetry"] for x in surfs) else 0.0)
     outs = {}
     combos = [("nlbgs", True), ("nlbgs", False), ("newton", True)]
     for nl, ait in combos:
-        p = pipelines.build_aerostruct([s], [flow], nonlinear=nl, aitken=ait)
+        p = pipelines.build_aerostruct(surfs, [flow], nonlinear=nl, aitken=ait)
         with quiet():
             p.run_model()
         outs[(nl, ait)] = p
@@ -316,27 +322,33 @@ def c12_fixed_point(rng, tier):
                               + [np.array(p.get_val("AS_point_0.coupled.wing.disp")).ravel() * 1e3])
     ref = vec(outs[("nlbgs", True)])
     out = []
-    case = dict(ny=s["mesh"].shape[1], symmetry=s["symmetry"], beta=flow["beta"], load_factor=flow["load_factor"])
+    case = dict(ny=[x["mesh"].shape[1] for x in surfs], symmetry=[x["symmetry"] for x in surfs], beta=flow["beta"], load_factor=flow["load_factor"])
     for k, p in outs.items():
         if relerr(vec(p), ref) > 1e-6:
             out.append(_fail("converged state depends on the nonlinear solver %s" % (k,), vec(p)[:6], ref[:6], **case))
     # consistency of the converged state: loads == transfer(aero forces on the deformed mesh), disp == FEM(loads)
     p = outs[("nlbgs", True)]
-    dm = np.array(p.get_val("AS_point_0.coupled.wing.def_mesh")); F = np.array(p.get_val("AS_point_0.coupled.aero_states.wing_sec_forces"))
-    loads = np.array(p.get_val("AS_point_0.coupled.wing.loads"))
-    lt = core.comp_problem(LoadTransfer(surface=s), dict(def_mesh=dm, sec_forces=F))
-    if relerr(np.array(lt.get_val("loads")), loads) > 1e-7:
-        out.append(_fail("converged loads are not the transfer of the aerodynamic forces on the deformed mesh", loads[:2], np.array(lt.get_val("loads"))[:2], **case))
     from .pipelines import aero_surface
-    # the flow about the deformed mesh (independent aero analysis of def_mesh at the same flight condition) gives the same forces
-    sa = [dict(aero_surface("wing", s["mesh"], s["symmetry"]), S_ref_type=s["S_ref_type"])]
-    pa = pipelines.run_aero_point(sa, dict(flow, cg=np.zeros(3)), meshes=[dm])
-    Fa = np.array(pa.get_val("pt.aero_states.wing_sec_forces"))
-    if relerr(Fa, F) > 1e-6:
-        out.append(_fail("converged aerodynamic forces are not those of the flow about the deformed mesh at the point's flight condition",
-                         F[0, :2], Fa[0, :2], **case))
+    dms = []
+    for x in surfs:
+        n = x["name"]
+        dm = np.array(p.get_val("AS_point_0.coupled.%s.def_mesh" % n)); F = np.array(p.get_val("AS_point_0.coupled.aero_states.%s_sec_forces" % n))
+        loads = np.array(p.get_val("AS_point_0.coupled.%s.loads" % n))
+        lt = core.comp_problem(LoadTransfer(surface=x), dict(def_mesh=dm, sec_forces=F))
+        if relerr(np.array(lt.get_val("loads")), loads) > 1e-7:
+            out.append(_fail("converged loads of surface %s are not the transfer of its aerodynamic forces on its deformed mesh (own spar line)" % n,
+                             loads[:2], np.array(lt.get_val("loads"))[:2], **case))
+        dms.append(dm)
+    # the flow about the deformed meshes (independent aero analysis at the same flight condition) gives the same forces
+    sa = [dict(aero_surface(x["name"], x["mesh"], x["symmetry"]), S_ref_type=x["S_ref_type"]) for x in surfs]
+    pa = pipelines.run_aero_point(sa, dict(flow, cg=np.zeros(3)), meshes=dms)
+    for x in surfs:
+        Fa = np.array(pa.get_val("pt.aero_states.%s_sec_forces" % x["name"])); F = np.array(p.get_val("AS_point_0.coupled.aero_states.%s_sec_forces" % x["name"]))
+        if relerr(Fa, F) > 1e-6:
+            out.append(_fail("converged aerodynamic forces are not those of the flow about the deformed mesh at the point's flight condition",
+                             F[0, :2], Fa[0, :2], surface=x["name"], **case))
     # path independence: visit another design point first
-    p2 = pipelines.build_aerostruct([s], [flow])
+    p2 = pipelines.build_aerostruct(surfs, [flow])
     with quiet():
         p2.set_val("alpha", flow["alpha"] + 3.0); p2.set_val("wing.thickness_cp", s["thickness_cp"] * 0.6); p2.run_model()
         p2.set_val("alpha", flow["alpha"]); p2.set_val("wing.thickness_cp", s["thickness_cp"]); p2.run_model()
